@@ -830,6 +830,11 @@ func parseField(v reflect.Value, bytes []byte, initOffset int, params fieldParam
 	if universalTag == TagUTCTime && t.tag == TagGeneralizedTime && t.class == ClassUniversal {
 		universalTag = TagGeneralizedTime
 	}
+	if universalTag == TagUTCTime && t.class != ClassUniversal && params.timeType != 0 {
+		// An implicitly tagged time: the field's utc/generalized parameter
+		// names the encoding, exactly as Marshal chose it.
+		universalTag = params.timeType
+	}
 
 	if params.set {
 		universalTag = TagSet
